@@ -10,7 +10,7 @@
 From Coq Require Import String.
 From Sdns Require Import Common.Base Gen.C10 C10.Model C10.ModelStream C10.ModelShare C10.ModelPool
   C10.Proofs_UdpBase C10.Proofs_UdpInv C10.Proofs_UdpThm C10.Proofs_Stream C10.Proofs_Read C10.Proofs_Share C10.Proofs_Top
-  C10.Proofs_Pool C10.ModelChains C10.Proofs_Chains C10.Proofs_Read C10.Proofs_ConnFrames C10.ModelEdns C10.Proofs_Edns C10.Proofs_UdpStep C10.Proofs_Socks.
+  C10.Proofs_Pool C10.ModelChains C10.Proofs_Chains C10.Proofs_Read C10.Proofs_ConnFrames C10.ModelEdns C10.Proofs_Edns C10.Proofs_UdpStep C10.Proofs_Socks C10.Proofs_Msg C10.ModelFlight C10.Proofs_Flight.
 Open Scope nat_scope.
 
 (* ties: the constants the proofs compute with are the source's *)
@@ -348,7 +348,91 @@ Theorem wire_serves_finish :
 Proof. exact wire_serves_close_with_finish. Qed.
 Print Assumptions wire_serves_finish.
 
+(* the Msg path of the owned UDP transport (udpJob.WriteMsg = PackBuffer(j.tx[:]) + Write(out), one
+   of the actions [single_owner] / [send_belongs_to_lease] / [no_leftover_reply] quantify over):
+   for EVERY slab state — whatever its TX buffer still holds of earlier clients — every message
+   whose wire form [bs] fits the slab and every uncompressed length [ulen] (which alone decides
+   whether the library packs in the slab or in an array of its own): on a burst the job stages
+   exactly the message (its length, its bytes, this lease's), without a burst exactly the message
+   leaves at once for the job's own client *)
+Theorem msg_reply_is_the_packed_message : forall j ulen bs,
+  (N.of_nat (length bs) <= udp_buf_size)%N ->
+  let r := job_write_msg j ulen bs in
+  match s_burst j with
+  | Some _ => snd r = WStaged /\ s_txlen (fst r) = length bs /\ staged (fst r) = tag (s_lease j) bs
+  | None => snd r = WSent (s_raddr j) (tag (s_lease j) bs) /\ s_txlen (fst r) = s_txlen j
+  end.
+Proof. exact msg_reply_lemma. Qed.
+Print Assumptions msg_reply_is_the_packed_message.
+
+(* ... and looking at WHERE the message was packed is necessary: staging by length whenever the
+   message fits (variant) sends the new client the head of the slab's previous reply when the
+   library packed elsewhere (ulen 5000 > slab), while the code stages the message; for a message
+   packed in place (ulen 40) the variant and the code agree — computed witness *)
+Theorem staging_msg_by_length_would_leak :
+  staged (fst (job_write_msg_bylen stale_slab 5000 [0; 8; 1]%N)) = tag 1 [0; 7; 9]%N /\
+  staged (fst (job_write_msg stale_slab 5000 [0; 8; 1]%N)) = tag 2 [0; 8; 1]%N /\
+  staged (fst (job_write_msg_bylen stale_slab 40 [0; 8; 1]%N)) = tag 2 [0; 8; 1]%N.
+Proof. exact bylen_leaks. Qed.
+Print Assumptions staging_msg_by_length_would_leak.
+
+(* collapsed upstream lookups — where `shared` comes from (ModelFlight: x/sync singleflight's
+   DoChan / doCall / Forget under SingleflightWrapper's generations, TimedDoChanWithRole's select).
+   For EVERY interleaving of callers joining (any keys), closures returning, Forget / stuck-call
+   cleanup, results received and callers giving up on their context:
+     two callers that hold the SAME result object were both told `shared` (so groupLookup copies
+     for both) and at most one of them is its leader;
+     a caller told "not shared" — the only case in which groupLookup uses the object itself — is
+     the only caller that ever joined that call: nobody else holds it, waits for it or walked away;
+     what a caller holds is the result of the call it joined, delivered after the closure returned.
+   This discharges what shared_lookup_isolated / shared_lookup_private take as a premise. *)
+Theorem collapsed_lookup_shared_flag_sound : forall ops,
+  let s := fsteps f_init ops in
+  (forall k1 k2 c s1 l1 s2 l2, k1 <> k2 ->
+     In (k1, FGot c s1 l1) (f_callers s) -> In (k2, FGot c s2 l2) (f_callers s) ->
+     s1 = true /\ s2 = true /\ ~ (l1 = true /\ l2 = true)) /\
+  (forall k c l, In (k, FGot c false l) (f_callers s) ->
+     forall k2 o, In (k2, o) (f_callers s) -> call_of o = c -> k2 = k) /\
+  (forall k c sh l, In (k, FGot c sh l) (f_callers s) ->
+     exists cl, nth_error (f_calls s) c = Some cl /\ fc_done cl = true /\ In k (fc_waiters cl)).
+Proof. exact flight_lemma. Qed.
+Print Assumptions collapsed_lookup_shared_flag_sound.
+
+(* ... and telling the leader too is necessary: in the variant that reports Shared to the joiners
+   only, leader 1 and follower 2 hold one object and 1 believes it its own (computed witness;
+   second half: what the code reports for the same history) *)
+Theorem never_telling_the_leader_would_leak :
+  f_callers (fsteps_leader_unshared f_init [FJoin 1 7%N; FJoin 2 7%N; FFinish 0; FRecv 1; FRecv 2])
+  = [(1, FGot 0 false true); (2, FGot 0 true false)] /\
+  f_callers (fsteps f_init [FJoin 1 7%N; FJoin 2 7%N; FFinish 0; FRecv 1; FRecv 2])
+  = [(1, FGot 0 true true); (2, FGot 0 true false)].
+Proof. exact leader_unshared_witness. Qed.
+Print Assumptions never_telling_the_leader_would_leak.
+
 (* ------------------------------------------------------------------ non-vacuity *)
+(* a flight that is forgotten while running, its replacement with a follower who gives up, and a
+   lone late caller: 1 alone on call 0 (not shared), 2 leads call 1 and is told shared because 3
+   joined — although 3 walks away —, 4 alone on call 2 *)
+Example flight_example :
+  f_callers (fsteps f_init [FJoin 1 7%N; FForget 7%N; FJoin 2 7%N; FJoin 3 7%N; FCancel 3; FFinish 1; FRecv 2;
+                            FFinish 0; FRecv 1; FJoin 4 7%N; FFinish 2; FRecv 4])
+  = [(1, FGot 0 false true); (2, FGot 1 true true); (3, FCancelled 1); (4, FGot 2 false true)].
+Proof. vm_compute. reflexivity. Qed.
+
+(* one slab, two leases; the second client is answered through WriteMsg with a message the
+   library packs in an array of its own (uncompressed 5000 > slab): it receives that message,
+   not the head of the first client's reply still lying in the slab *)
+Example udp_msg_example :
+  let c := mkCfg 4 2 1 true in
+  let q i := [0; i; 1; 0; 0; 1; 0; 0; 0; 0; 0; 0]%N in
+  exists s, usteps c u_init
+              [ATake 0 0; ARecvEnq 0 0 RBatch 11 (q 7%N) no_script; ABeginServe 0; AHWrite 0 [0; 7; 9; 9; 9]%N; AEndServe 0;
+               AIdleFlush 0; ATake 0 0; ARecvEnq 0 0 RBatch 22 (q 8%N) no_script; ABeginServe 0;
+               AHWriteMsg 0 5000 [0; 8; 1]%N; AEndServe 0; AIdleFlush 0] = Ok s /\
+            sent_to 11 (u_log s) = [[0; 7; 9; 9; 9]%N] /\ sent_to 22 (u_log s) = [[0; 8; 1]%N] /\
+            u_idle s = [0].
+Proof. eexists. vm_compute. repeat split. Qed.
+
 (* a reachable history with two leases of one slab: the second lease's client never sees the
    first reply; the datagram in the log is the first client's *)
 Example udp_example :
